@@ -69,6 +69,20 @@ VARIANT = PYPY if IS_PYPY else None
 VARIANT = GRAAL if IS_GRAAL else None
 
 
+_CATEGORY_TABLES = (
+    "cmp_op",
+    "hasarg",
+    "hascompare",
+    "hasexc",
+    "hasfree",
+    "hasjabs",
+    "hasjrel",
+    "hasjump",
+    "haslocal",
+    "hasnargs",
+)
+
+
 class _StdApi:
     def __init__(self, python_version=sys.version_info, variant=VARIANT):
         if python_version >= (3, 6):
@@ -87,6 +101,11 @@ class _StdApi:
         self.opname = opc.opname
         self.EXTENDED_ARG = opc.EXTENDED_ARG
         self.HAVE_ARGUMENT = opc.HAVE_ARGUMENT
+        # The other opcode category tables of the dis module, as far as this
+        # version has them.
+        for table in _CATEGORY_TABLES:
+            if hasattr(opc, table):
+                setattr(self, table, getattr(opc, table))
 
         class Bytecode(_Bytecode):
             """The bytecode operations in a piece of code
@@ -202,7 +221,14 @@ class _StdApi:
         With no argument, disassemble the last traceback.
 
         """
-        if hasattr(x, "__dict__") and not hasattr(x, "__code__"):
+        if hasattr(x, "__func__"):
+            # A method, staticmethod or classmethod object
+            x = x.__func__
+        if (
+            hasattr(x, "__dict__")
+            and not hasattr(x, "__code__")
+            and not hasattr(x, "co_code")
+        ):
             # A class or a module: like dis.dis(), disassemble every
             # function, method or code object found in its namespace.
             for name, x1 in sorted(x.__dict__.items()):
@@ -302,6 +328,9 @@ opmap = _std_api.opmap
 opname = _std_api.opname
 EXTENDED_ARG = _std_api.EXTENDED_ARG
 HAVE_ARGUMENT = _std_api.HAVE_ARGUMENT
+for _table in _CATEGORY_TABLES:
+    if hasattr(_std_api, _table):
+        globals()[_table] = getattr(_std_api, _table)
 xcode = _std_api.xcode
 opc = _std_api.opc
 Bytecode = _std_api.Bytecode
